@@ -53,9 +53,28 @@ class Sym(Interp):
                     raise AnalysisError('symbolic prf+: loop does not terminate for size %r' % self.env.get('size'))
                 self.block(st.body)
             return
+        if isinstance(st, ast.Expr) and isinstance(st.value, ast.Call) and isinstance(st.value.func, ast.Attribute) \
+                and st.value.func.attr in ('append', 'extend') and isinstance(st.value.func.value, ast.Name) \
+                and isinstance(self.env.get(st.value.func.value.id), list) and len(st.value.args) == 1:
+            v = self.ev(st.value.args[0])          # the output kept as a list of blocks
+            if st.value.func.attr == 'append':
+                self.env[st.value.func.value.id].append(v)
+            else:
+                self.env[st.value.func.value.id].extend(v)
+            return
         return super().stmt(st)
 
     def ev(self, e):
+        if isinstance(e, ast.List):
+            return [self.ev(x) for x in e.elts]
+        if isinstance(e, ast.Call) and isinstance(e.func, ast.Attribute) and e.func.attr == 'join' and len(e.args) == 1 and not e.keywords:
+            sep = self.ev(e.func.value)
+            parts = self.ev(e.args[0])
+            if sep == () and isinstance(parts, list):
+                out = ()
+                for p_ in parts:
+                    out += p_
+                return out
         if isinstance(e, ast.Call):
             f = e.func
             if isinstance(f, ast.Name) and f.id in ('bytes', 'bytearray') and not e.args:
